@@ -406,6 +406,131 @@ fn run_scenario(sc: &Scenario, ops: &[Op], rng: &mut Rng, ev: &mut Ev, case: u64
     }
 }
 
+/// Interpolators that follow one another in the same storage: a view interpolator over buffers
+/// that are re-gridded in place between builds, and owned interpolators whose freed blocks the
+/// allocator hands out again. What an interpolator answers must not depend on what a
+/// predecessor living at the same address was asked - the same bit-identical query is put to
+/// every successor directly after its predecessor.
+fn storage_reuse(rng: &mut Rng, ev: &mut Ev, case: u64) {
+    use vh::ndarray::{ArrayView1, ArrayView2};
+    let n = 4 + rng.below(7);
+    let rounds = if cfg!(miri) { 3 } else { 6 };
+    let spline = case % 2 == 1;
+    // grids with common end points (so that one query set is in range for all) and different
+    // interior knots
+    let grids: Vec<Vec<f64>> = (0..rounds)
+        .map(|_| {
+            let mut g: Vec<f64> = vec![0.0, 16.0];
+            while g.len() < n {
+                let v = (1 + rng.below(255)) as f64 / 16.0;
+                if !g.contains(&v) {
+                    g.push(v);
+                }
+            }
+            g.sort_by(|a, b| a.partial_cmp(b).unwrap());
+            g
+        })
+        .collect();
+    let datas: Vec<Vec<f64>> = (0..rounds).map(|_| (0..n).map(|_| rng.f01() * 40.0 - 20.0).collect()).collect();
+    let grid2: Vec<Vec<f64>> = (0..rounds).map(|_| (0..n * n).map(|_| rng.f01() * 40.0 - 20.0).collect()).collect();
+    let qs: Vec<f64> = (0..if cfg!(miri) { 3 } else { 8 }).map(|_| 0.25 + rng.f01() * 15.5).collect();
+    let strat = || CubicSpline::new();
+    let bits = |r: Result<f64, vh::ndarray_interp::InterpolateError>| r.map(|v| v.to_bits()).map_err(|e| e.to_string());
+    // reference: every (grid, query) on its own freshly allocated, owned interpolator; the
+    // query order differs from the reuse passes
+    let mut ref1 = vec![vec![Ok(0u64); qs.len()]; rounds];
+    let mut ref2 = vec![vec![Ok(0u64); qs.len()]; rounds];
+    let mut refi = vec![vec![0usize; qs.len()]; rounds];
+    for k in 0..rounds {
+        let x = Array1::from(grids[k].clone());
+        let d = Array1::from(datas[k].clone());
+        let g = vh::ndarray::Array2::from_shape_vec((n, n), grid2[k].clone()).unwrap();
+        let b = Interp2DBuilder::new(g).x(x.clone()).y(x.clone()).build().unwrap();
+        if spline {
+            let i = Interp1DBuilder::new(d).x(x).strategy(strat()).build().unwrap();
+            for (j, &q) in qs.iter().enumerate().rev() {
+                ref1[k][j] = bits(i.interp_scalar(q));
+                refi[k][j] = i.get_index_left_of(q);
+            }
+        } else {
+            let i = Interp1DBuilder::new(d).x(x).strategy(Linear::new()).build().unwrap();
+            for (j, &q) in qs.iter().enumerate().rev() {
+                ref1[k][j] = bits(i.interp_scalar(q));
+                refi[k][j] = i.get_index_left_of(q);
+            }
+        }
+        for (j, &q) in qs.iter().enumerate().rev() {
+            ref2[k][j] = bits(b.interp_scalar(q, 16.0 - q));
+        }
+    }
+    let mut bad: Option<String> = None;
+    // pass A: views over buffers re-gridded in place
+    let mut xbuf = vec![0.0f64; n];
+    let mut dbuf = vec![0.0f64; n];
+    let mut gbuf = vec![0.0f64; n * n];
+    for (j, &q) in qs.iter().enumerate() {
+        for k in 0..rounds {
+            xbuf.copy_from_slice(&grids[k]);
+            dbuf.copy_from_slice(&datas[k]);
+            gbuf.copy_from_slice(&grid2[k]);
+            let (xv, dv) = (ArrayView1::from(&xbuf[..]), ArrayView1::from(&dbuf[..]));
+            let (got, idx) = if spline {
+                let i = Interp1DBuilder::new(dv).x(xv).strategy(strat()).build().unwrap();
+                (bits(i.interp_scalar(q)), i.get_index_left_of(q))
+            } else {
+                let i = Interp1DBuilder::new(dv).x(xv).strategy(Linear::new()).build().unwrap();
+                (bits(i.interp_scalar(q)), i.get_index_left_of(q))
+            };
+            ev.add("storage_reuse_same_address_builds", 1);
+            ev.add("storage_reuse_queries", 2);
+            if got != ref1[k][j] || idx != refi[k][j] {
+                bad.get_or_insert(format!(
+                    "1-D view interpolator over a buffer re-gridded in place (grid {k}: {:?}), q={q:?}: value bits {:?} / interval {idx}, but {:?} / {} on a freshly allocated interpolator",
+                    grids[k], got, ref1[k][j], refi[k][j]
+                ));
+            }
+            let gv = ArrayView2::from_shape((n, n), &gbuf[..]).unwrap();
+            let b = Interp2DBuilder::new(gv).x(xv).y(xv).build().unwrap();
+            let got2 = bits(b.interp_scalar(q, 16.0 - q));
+            ev.add("storage_reuse_queries", 1);
+            if got2 != ref2[k][j] {
+                bad.get_or_insert(format!(
+                    "2-D view interpolator over buffers re-gridded in place (grid {k}), q=({q:?},{:?}): value bits {:?}, but {:?} on a freshly allocated interpolator",
+                    16.0 - q, got2, ref2[k][j]
+                ));
+            }
+        }
+    }
+    // pass B: owned interpolators built and dropped one after the other (the allocator may
+    // hand the freed axis block out again; observed reuses are counted)
+    let mut last_ptr: *const f64 = std::ptr::null();
+    for (j, &q) in qs.iter().enumerate() {
+        for k in 0..rounds {
+            let x = Array1::from(grids[k].clone());
+            let d = Array1::from(datas[k].clone());
+            if x.as_ptr() == last_ptr {
+                ev.add("storage_reuse_allocator_reuses_observed", 1);
+            }
+            last_ptr = x.as_ptr();
+            let got = if spline {
+                bits(Interp1DBuilder::new(d).x(x).strategy(strat()).build().unwrap().interp_scalar(q))
+            } else {
+                bits(Interp1DBuilder::new(d).x(x).strategy(Linear::new()).build().unwrap().interp_scalar(q))
+            };
+            ev.add("storage_reuse_queries", 1);
+            if got != ref1[k][j] {
+                bad.get_or_insert(format!(
+                    "owned interpolators built and dropped in a loop (grid {k}: {:?}), q={q:?}: value bits {:?}, but {:?} when evaluated in a different order",
+                    grids[k], got, ref1[k][j]
+                ));
+            }
+        }
+    }
+    if let Some(msg) = bad {
+        ev.violation("C17:depends-on-predecessor-in-same-storage", &msg, case, J::obj().set("phase", "storage-reuse").set("n", n));
+    }
+}
+
 fn main() {
     let args = Args::parse("C17");
     let n_cases = args.budget(24, 600);
@@ -425,6 +550,7 @@ fn main() {
             continue;
         }
         let mut rng = Rng::derive(args.seed, "C17", &[case]);
+        storage_reuse(&mut Rng::derive(args.seed, "C17-reuse", &[case]), &mut ev, case);
         match case % 4 {
             // Linear over owned storage, Ix2
             0 => {
